@@ -111,7 +111,7 @@ def safe_eval(ctx, exprs, imports, tag, shard, per_shard_timeout=None, single_ti
     if not exprs:
         return []
     # bounded either way; the thorough tier has 12-cycle wide designs (~10 s of coqc each on an idle core)
-    per_shard_timeout = per_shard_timeout or (150 if ctx.tier == 'quick' else 600)
+    per_shard_timeout = per_shard_timeout or (90 if ctx.tier == 'quick' else 400)
     single_timeout = single_timeout or (45 if ctx.tier == 'quick' else 240)
     shards = [(k, exprs[k:k + shard]) for k in range(0, len(exprs), shard)]
     out = [None] * len(exprs)
@@ -695,150 +695,154 @@ def module_cases(ctx, n, n_hist, n_derived=0, n_samename=0, n_wide=0, n_own=0, n
            [(('c', k), False) for k in range(n_wide)] + [(('r', k), False) for k in range(n_own)] + \
            [(('p', k), False) for k in range(n_proc)]
     for i, hist in plan:
-        variant = ''
-        if isinstance(i, tuple) and i[0] in 'dncrp':
-            try:
-                made = make_variant(ctx, i)
-            except (pyrtl.PyrtlError, pyrtl.PyrtlInternalError) as e:
-                ctx.count('variants', 'rejected:%s:%s:%s' % (i[0], i[1], type(e).__name__))
-                continue
-            if made is None:
-                ctx.count('variants', 'too-large')
-                continue
-            d, variant, regmap, memmap, inputs = made
-            renamed = []
-            ctx.count('variants', variant if i[0] == 'd' else {'n': 'same-name-memories', 'c': 'wide-constants',
-                                                               'r': 'own-names', 'p': 'process-history'}[i[0]])
-        else:
-            d, renamed, regmap, memmap, inputs = make_case(ctx, i)
-        history = []
-        if hist:
-            rng = ctx.sub_rng('history', i)
-            history_prefix(ctx, i, d, memmap, inputs)
-            try:
-                history = extend_in_place(rng, d)
-            except (pyrtl.PyrtlError, pyrtl.PyrtlInternalError) as e:
-                ctx.count('history', 'extension-rejected:' + type(e).__name__)
-                continue
-            regmap, memmap, inputs = gen_designs.make_stimulus(rng, d, len(inputs))
-            for h in history:
-                ctx.count('history', h)
-        block = d.block
-        wid0 = nlx.Dump(block).wid
         try:
-            sim, tracer = simulate(pyrtl.Simulation, d, {}, memmap, inputs, 0)
-        except pyrtl.PyrtlError as e:
-            ctx.model_mismatch('Simulation rejected an API-built design: %s' % e, {'design': i})
-            continue
-        dump = None
-        # quick tier: the continuous assigns are the same text under the three options, so only one (seeded)
-        # option replays the whole stimulus; the other two replay its first two cycles
-        full_mode = ctx.sub_rng('fullmode', i).randrange(3) if ctx.tier == 'quick' else None
-        for mode_k, (add_reset, coq_mode, mname) in enumerate(MODES):
-            ins_mode = inputs if full_mode in (None, mode_k) else inputs[:2]
-            try:
-                text = export(block, add_reset)
-            except (pyrtl.PyrtlError, pyrtl.PyrtlInternalError) as e:
-                ctx.count('export', 'rejected:' + str(e)[:40])
-                continue
-            except Exception as e:   # not a PyRTL rejection: the exporter crashed on a sane block
-                report_once(ctx, 'verilog:export-crash:%s' % type(e).__name__,
-                            'output_to_verilog raised %s (%s) on a block that passes sanity_check (design %r%s, '
-                            'add_reset=%r)' % (type(e).__name__, str(e)[:200], i, ' ' + variant if variant else '',
-                                               add_reset),
-                            design_replay(ctx, i, d, {'add_reset': add_reset, 'variant': variant}))
-                continue
-            rep = design_replay(ctx, i, d, {'add_reset': add_reset, 'renamed': [short(x) for x in renamed],
-                                           'inputs': [{short(k): v for k, v in s.items()} for s in inputs]})
-            if variant:
-                rep['variant'] = variant
-                rep['text'] = text[:3000]
+            variant = ''
+            if isinstance(i, tuple) and i[0] in 'dncrp':
+                try:
+                    made = make_variant(ctx, i)
+                except (pyrtl.PyrtlError, pyrtl.PyrtlInternalError) as e:
+                    ctx.count('variants', 'rejected:%s:%s:%s' % (i[0], i[1], type(e).__name__))
+                    continue
+                if made is None:
+                    ctx.count('variants', 'too-large')
+                    continue
+                d, variant, regmap, memmap, inputs = made
+                renamed = []
+                ctx.count('variants', variant if i[0] == 'd' else {'n': 'same-name-memories', 'c': 'wide-constants',
+                                                                   'r': 'own-names', 'p': 'process-history'}[i[0]])
+            else:
+                d, renamed, regmap, memmap, inputs = make_case(ctx, i)
+            history = []
             if hist:
-                rep['history'] = ('exported module+testbench under all options, then extended in place with %s, '
-                                  'then exported again (this text)' % history)
-                rep['text'] = text[:3000]
+                rng = ctx.sub_rng('history', i)
+                history_prefix(ctx, i, d, memmap, inputs)
+                try:
+                    history = extend_in_place(rng, d)
+                except (pyrtl.PyrtlError, pyrtl.PyrtlInternalError) as e:
+                    ctx.count('history', 'extension-rejected:' + type(e).__name__)
+                    continue
+                regmap, memmap, inputs = gen_designs.make_stimulus(rng, d, len(inputs))
+                for h in history:
+                    ctx.count('history', h)
+            block = d.block
+            wid0 = nlx.Dump(block).wid
             try:
-                mod = vr.parse_module(text, reset_port=bool(add_reset))
-                idmap, rev = ident_map(block, wid0, mod)
-            except vr.ReaderError as e:
-                sig = 'verilog:unreadable:' + re.sub(r'[^a-z ]', '', str(e).split(':')[0].lower())[:40].strip()
+                sim, tracer = simulate(pyrtl.Simulation, d, {}, memmap, inputs, 0)
+            except pyrtl.PyrtlError as e:
+                ctx.model_mismatch('Simulation rejected an API-built design: %s' % e, {'design': i})
+                continue
+            dump = None
+            # quick tier: the continuous assigns are the same text under the three options, so only one (seeded)
+            # option replays the whole stimulus; the other two replay its first two cycles
+            full_mode = ctx.sub_rng('fullmode', i).randrange(3) if ctx.tier == 'quick' else None
+            for mode_k, (add_reset, coq_mode, mname) in enumerate(MODES):
+                ins_mode = inputs if full_mode in (None, mode_k) else inputs[:2]
+                try:
+                    text = export(block, add_reset)
+                except (pyrtl.PyrtlError, pyrtl.PyrtlInternalError) as e:
+                    ctx.count('export', 'rejected:' + str(e)[:40])
+                    continue
+                except Exception as e:   # not a PyRTL rejection: the exporter crashed on a sane block
+                    report_once(ctx, 'verilog:export-crash:%s' % type(e).__name__,
+                                'output_to_verilog raised %s (%s) on a block that passes sanity_check (design %r%s, '
+                                'add_reset=%r)' % (type(e).__name__, str(e)[:200], i, ' ' + variant if variant else '',
+                                                   add_reset),
+                                design_replay(ctx, i, d, {'add_reset': add_reset, 'variant': variant}))
+                    continue
+                rep = design_replay(ctx, i, d, {'add_reset': add_reset, 'renamed': [short(x) for x in renamed],
+                                               'inputs': [{short(k): v for k, v in s.items()} for s in inputs]})
+                if variant:
+                    rep['variant'] = variant
+                    rep['text'] = text[:3000]
                 if hist:
-                    sig = 'verilog:stale-after-extension'
-                report_once(ctx, sig, 'emitted module is not in the Verilog-2001 subset / not legal: %s%s' % (
-                    e, ' (second export of a block extended after its first export)' if hist else ''),
-                            dict(rep, text=text[:3000]))
-                continue
-            except Exception as e:   # the reader itself must never take the run down
-                report_once(ctx, 'verilog:unreadable:reader gave up', 'the reader could not process the emitted module: '
-                            '%s: %s' % (type(e).__name__, str(e)[:200]), dict(rep, text=text[:3000]))
-                continue
-            stale = set(w.name for w in block.wirevector_set) - set(rev[nm].name for nm in rev)
-            if hist and (stale or len(mod.declared()) != len(block.wirevector_set)):
-                report_once(ctx, 'verilog:stale-after-extension',
-                            'second export of a block extended in place after its first export does not declare the '
-                            'wires added since: %s (design %r, add_reset=%r)' % (
-                                sorted(short(x) for x in stale)[:8], i, add_reset), rep)
-                continue
-            if dump is None:
-                dump = nlx.Dump(block, net_order=net_order(block, mod, rev))
-                probes = [(m.id, a) for m in d.mems for a in range(1 << m.addrwidth)]
-                order = [dump.wid[w] for w in dump.wires if isinstance(w, pyrtl.Const)] + \
-                        [dump.wid[n.dests[0]] for n in dump.nets if n.op not in 'r@']
-                # ONE expression per design: netlist, stimulus and (if the texts agree field by field) the module
-                # are written once and shared by the reference run and the runs under each add_reset option
-                mod0, runs = None, []
-                # (a beta-redex, not let-in: Coq elaborates `let x := <big term> in` pathologically slowly)
-                design_args = [dump.coq(), nlx.zlist(order), dump.memmap(memmap), dump.inputs(inputs),
-                               nlx.pairs(probes)]
-            try:
-                if mod0 is None:
-                    mod0, m0term = mod, mod.coq(idmap)
-                    mterm = 'm0'
-                elif mod.same_but_reset(mod0):
-                    mterm = '(set_mode m0 %s %s)' % mod.coq(idmap, only_mode_resets=True)
-                else:
-                    mterm = mod.coq(idmap)
-            except KeyError as e:
-                ctx.model_mismatch('identifier %s of the emitted text cannot be attributed to a wire' % e, rep)
-                continue
-            runs.append('verilog_case nl %s %s order mm %s pr' % (
-                coq_mode, mterm, 'ins' if len(ins_mode) == len(inputs) else '(firstn %d ins)' % len(ins_mode)))
-            names = dump.names()
-            meta.append(dict(i=i, mode=mname, add_reset=add_reset, names=names, rep=rep, block=block, hist=hist, text=text,
-                             pos=len(runs),
-                             impl_trace=[[tracer.trace[nm][t] for nm in names] for t in range(len(ins_mode))],
-                             full=len(ins_mode) == len(inputs),
-                             impl_mem=[sim.memvalue[mid].get(a, 0) for (mid, a) in probes],
-                             outputs=[k for k, w in enumerate(dump.wires) if isinstance(w, pyrtl.Output)],
-                             topo={dump.wid[n.dests[0]] - 1: pos for pos, n in enumerate(dump.nets) if n.dests},
-                             regs=[(nm, getattr(rev[nm], 'reset_value', None) or 0) for nm, _ in mod.regs],
-                             ncyc=len(ins_mode), mod=mod, d=d))
-            for _, e in mod.assigns + mod.resets:
-                if e[0] == 'dec':
-                    ctx.count('unsized_literals', '>=2^31' if e[1] >= (1 << 31) else '<2^31')
-        if dump is not None and runs:
-            exprs.append('(fun nl order mm ins pr m0 => [spec_case nl 0 [] mm ins pr; %s]) %s' % (
-                '; '.join(runs), ' '.join(design_args + [m0term])))
-            expr_of[i] = len(exprs) - 1
-        if dump is not None:
-            for o in d.ops:
-                ctx.count('ops', o)
-            for w in dump.wires:
-                ctx.count('widths', w.bitwidth if w.bitwidth <= 8 else ('9-64' if w.bitwidth <= 64 else '65+'))
-            ctx.count('registers', len(d.regs))
-            ctx.count('memories', len(d.mems))
-            ctx.count('roms', len(d.roms))
-            ctx.count('renamed_wires', len(renamed))
-            # sanitizer tie: the identifiers the real emitter used vs the Coq model on the same names
-            ident_of = {id(w): nm for nm, w in rev.items()}
-            san_exprs.append('sanitizer_case [%s]' % '; '.join(
-                nlx.zlist(list(w.name.encode('utf-8'))) for w in dump.wires))
-            san_meta.append((i, [(w.name, ident_of.get(id(w))) for w in dump.wires]))
-            small = len(dump.wires) <= (90 if isinstance(i, tuple) else 60)
-            if small and (hist or isinstance(i, tuple) or i < (20 if ctx.tier == 'quick' else 80)):
-                tb_jobs.append((i, d, idmap, dump, regmap, memmap, inputs))
+                    rep['history'] = ('exported module+testbench under all options, then extended in place with %s, '
+                                      'then exported again (this text)' % history)
+                    rep['text'] = text[:3000]
+                try:
+                    mod = vr.parse_module(text, reset_port=bool(add_reset))
+                    idmap, rev = ident_map(block, wid0, mod)
+                except vr.ReaderError as e:
+                    sig = 'verilog:unreadable:' + re.sub(r'[^a-z ]', '', str(e).split(':')[0].lower())[:40].strip()
+                    if hist:
+                        sig = 'verilog:stale-after-extension'
+                    report_once(ctx, sig, 'emitted module is not in the Verilog-2001 subset / not legal: %s%s' % (
+                        e, ' (second export of a block extended after its first export)' if hist else ''),
+                                dict(rep, text=text[:3000]))
+                    continue
+                except Exception as e:   # the reader itself must never take the run down
+                    report_once(ctx, 'verilog:unreadable:reader gave up', 'the reader could not process the emitted module: '
+                                '%s: %s' % (type(e).__name__, str(e)[:200]), dict(rep, text=text[:3000]))
+                    continue
+                stale = set(w.name for w in block.wirevector_set) - set(rev[nm].name for nm in rev)
+                if hist and (stale or len(mod.declared()) != len(block.wirevector_set)):
+                    report_once(ctx, 'verilog:stale-after-extension',
+                                'second export of a block extended in place after its first export does not declare the '
+                                'wires added since: %s (design %r, add_reset=%r)' % (
+                                    sorted(short(x) for x in stale)[:8], i, add_reset), rep)
+                    continue
+                if dump is None:
+                    dump = nlx.Dump(block, net_order=net_order(block, mod, rev))
+                    probes = [(m.id, a) for m in d.mems for a in range(1 << m.addrwidth)]
+                    order = [dump.wid[w] for w in dump.wires if isinstance(w, pyrtl.Const)] + \
+                            [dump.wid[n.dests[0]] for n in dump.nets if n.op not in 'r@']
+                    # ONE expression per design: netlist, stimulus and (if the texts agree field by field) the module
+                    # are written once and shared by the reference run and the runs under each add_reset option
+                    mod0, runs = None, []
+                    # (a beta-redex, not let-in: Coq elaborates `let x := <big term> in` pathologically slowly)
+                    design_args = [dump.coq(), nlx.zlist(order), dump.memmap(memmap), dump.inputs(inputs),
+                                   nlx.pairs(probes)]
+                try:
+                    if mod0 is None:
+                        mod0, m0term = mod, mod.coq(idmap)
+                        mterm = 'm0'
+                    elif mod.same_but_reset(mod0):
+                        mterm = '(set_mode m0 %s %s)' % mod.coq(idmap, only_mode_resets=True)
+                    else:
+                        mterm = mod.coq(idmap)
+                except KeyError as e:
+                    ctx.model_mismatch('identifier %s of the emitted text cannot be attributed to a wire' % e, rep)
+                    continue
+                runs.append('verilog_case nl %s %s order mm %s pr' % (
+                    coq_mode, mterm, 'ins' if len(ins_mode) == len(inputs) else '(firstn %d ins)' % len(ins_mode)))
+                names = dump.names()
+                meta.append(dict(i=i, mode=mname, add_reset=add_reset, names=names, rep=rep, block=block, hist=hist, text=text,
+                                 pos=len(runs),
+                                 impl_trace=[[tracer.trace[nm][t] for nm in names] for t in range(len(ins_mode))],
+                                 full=len(ins_mode) == len(inputs),
+                                 impl_mem=[sim.memvalue[mid].get(a, 0) for (mid, a) in probes],
+                                 outputs=[k for k, w in enumerate(dump.wires) if isinstance(w, pyrtl.Output)],
+                                 topo={dump.wid[n.dests[0]] - 1: pos for pos, n in enumerate(dump.nets) if n.dests},
+                                 regs=[(nm, getattr(rev[nm], 'reset_value', None) or 0) for nm, _ in mod.regs],
+                                 ncyc=len(ins_mode), mod=mod, d=d))
+                for _, e in mod.assigns + mod.resets:
+                    if e[0] == 'dec':
+                        ctx.count('unsized_literals', '>=2^31' if e[1] >= (1 << 31) else '<2^31')
+            if dump is not None and runs:
+                exprs.append('(fun nl order mm ins pr m0 => [spec_case nl 0 [] mm ins pr; %s]) %s' % (
+                    '; '.join(runs), ' '.join(design_args + [m0term])))
+                expr_of[i] = len(exprs) - 1
+            if dump is not None:
+                for o in d.ops:
+                    ctx.count('ops', o)
+                for w in dump.wires:
+                    ctx.count('widths', w.bitwidth if w.bitwidth <= 8 else ('9-64' if w.bitwidth <= 64 else '65+'))
+                ctx.count('registers', len(d.regs))
+                ctx.count('memories', len(d.mems))
+                ctx.count('roms', len(d.roms))
+                ctx.count('renamed_wires', len(renamed))
+                # sanitizer tie: the identifiers the real emitter used vs the Coq model on the same names
+                ident_of = {id(w): nm for nm, w in rev.items()}
+                san_exprs.append('sanitizer_case [%s]' % '; '.join(
+                    nlx.zlist(list(w.name.encode('utf-8'))) for w in dump.wires))
+                san_meta.append((i, [(w.name, ident_of.get(id(w))) for w in dump.wires]))
+                small = len(dump.wires) <= (90 if isinstance(i, tuple) else 60)
+                if small and (hist or isinstance(i, tuple) or i < (20 if ctx.tier == 'quick' else 80)):
+                    tb_jobs.append((i, d, idmap, dump, regmap, memmap, inputs))
+        except Exception as e:   # one case must never abort the run
+            ctx.model_mismatch('harness error (module case): %s: %s' % (type(e).__name__, str(e)[:300]), {'case': repr(i)})
     shard = 12 if ctx.tier == 'quick' else 40
-    res = safe_eval(ctx, exprs, IMPORTS, 'c05ver', max(4, shard // 3))
+    res = safe_eval(ctx, exprs, IMPORTS, 'c05ver', 4 if ctx.tier == 'quick' else 6)   # small shards: a whole shard stays
+    # far below its time limit even on a heavily loaded machine (thorough designs cost up to ~10 s of coqc each)
     for c in meta:
         R = res[expr_of[c['i']]] if c['i'] in expr_of else None
         if R is None:
@@ -936,63 +940,66 @@ SIMS = [('sim', pyrtl.Simulation), ('fast', pyrtl.FastSimulation), ('compiled', 
 def testbench_cases(ctx, jobs):
     exprs, meta = [], []
     for (i, d, idmap, dump, regmap, memmap, inputs) in jobs:
-        rng = ctx.sub_rng('tb', i)
-        block = d.block
-        for sname, cls in SIMS:
-            if sname == 'compiled' and (isinstance(i, tuple) or i >= (8 if ctx.tier == 'quick' else 30)):
-                continue
-            dflt = 0 if (sname == 'compiled' or rng.random() < 0.7) else 1
-            add_reset, _, mname = MODES[rng.randrange(3)]
-            # the stimulus reaches the simulator as mixed Integral kinds (bool, int subclass, IntEnum);
-            # the reference side (Coq) gets the same numbers as plain ints
-            t_regmap, t_memmap, t_inputs = retype_stimulus(rng, regmap, memmap, inputs)
-            try:
-                sim, tracer = simulate(cls, d, t_regmap, t_memmap, t_inputs, dflt)
-                ctx.count('value_kinds', 'typed-stimulus-accepted:' + sname)
-            except Exception as e:
-                ctx.count('testbench', 'simulator-error:%s:%s' % (sname, type(e).__name__))
-                try:
-                    sim, tracer = simulate(cls, d, regmap, memmap, inputs, dflt)
-                except Exception as e2:
-                    ctx.count('testbench', 'simulator-error-plain:%s:%s' % (sname, type(e2).__name__))
+        try:
+            rng = ctx.sub_rng('tb', i)
+            block = d.block
+            for sname, cls in SIMS:
+                if sname == 'compiled' and (isinstance(i, tuple) or i >= (8 if ctx.tier == 'quick' else 30)):
                     continue
-            rep = design_replay(ctx, i, d, {
-                'simulator': sname, 'add_reset': add_reset, 'default_value': dflt,
-                'register_value_map': {short(r.name): v for r, v in regmap.items()},
-                'memory_value_map': {'mem_%d (%s)' % (m.id, m.name): c for m, c in memmap.items()},
-                'inputs': [{short(k): v for k, v in s.items()} for s in inputs]})
-            try:
-                text = export_tb(block, tracer, add_reset)
-            except (pyrtl.PyrtlError, pyrtl.PyrtlInternalError) as e:
-                ctx.count('testbench', 'rejected:' + str(e)[:40])
-                continue
-            except Exception as e:
-                report_once(ctx, 'testbench:export-error:%s' % sname,
-                            'output_verilog_testbench raised %s: %s' % (type(e).__name__, e), rep)
-                continue
-            try:
-                tb = vr.parse_testbench(text, reset_port=bool(add_reset))
-                term = tb.coq(idmap)
-            except (vr.ReaderError, KeyError) as e:
-                report_once(ctx, 'testbench:unreadable', 'testbench text outside the subset / illegal: %s' % e,
-                            dict(rep, text=text[:2000]))
-                continue
-            traced = [plain({nm: tracer.trace[nm][t] for nm in inputs[0]}) for t in range(len(inputs))]
-            exprs.append('tb_case %s %d %s %s %s %s' % (dump.coq(), dflt, dump.regmap(regmap),
-                                                       dump.memmap(memmap), dump.inputs(traced), term))
-            # what the simulation started from (for the message only; the verdict is Coq's)
-            want_regs = {r.name: regmap.get(r, r.reset_value if r.reset_value is not None else dflt)
-                         for r in d.regs}
-            meta.append(dict(i=i, sim=sname, rep=rep, tb=tb, want_regs=want_regs, d=d, memmap=memmap,
-                             dflt=dflt, traced=traced, inputs=inputs,
-                             nontrivial=bool(regmap) or any(memmap.values())))
-            romids = {m.id for m in d.roms}
-            hit = [t for t in tb.init if t[0] in ('fill', 'mem') and t[1] in romids]
-            if hit:
-                report_once(ctx, 'testbench:rom-overwritten',
-                            'the testbench initial block assigns ROM mem_%d (%s) although the module\'s own initial '
-                            'block holds the ROM data: the two initial blocks race and the ROM may read %d' % (
-                                hit[0][1], hit[0], hit[0][-1]), dict(rep, text=text[:1500]), limit=1)
+                dflt = 0 if (sname == 'compiled' or rng.random() < 0.7) else 1
+                add_reset, _, mname = MODES[rng.randrange(3)]
+                # the stimulus reaches the simulator as mixed Integral kinds (bool, int subclass, IntEnum);
+                # the reference side (Coq) gets the same numbers as plain ints
+                t_regmap, t_memmap, t_inputs = retype_stimulus(rng, regmap, memmap, inputs)
+                try:
+                    sim, tracer = simulate(cls, d, t_regmap, t_memmap, t_inputs, dflt)
+                    ctx.count('value_kinds', 'typed-stimulus-accepted:' + sname)
+                except Exception as e:
+                    ctx.count('testbench', 'simulator-error:%s:%s' % (sname, type(e).__name__))
+                    try:
+                        sim, tracer = simulate(cls, d, regmap, memmap, inputs, dflt)
+                    except Exception as e2:
+                        ctx.count('testbench', 'simulator-error-plain:%s:%s' % (sname, type(e2).__name__))
+                        continue
+                rep = design_replay(ctx, i, d, {
+                    'simulator': sname, 'add_reset': add_reset, 'default_value': dflt,
+                    'register_value_map': {short(r.name): v for r, v in regmap.items()},
+                    'memory_value_map': {'mem_%d (%s)' % (m.id, m.name): c for m, c in memmap.items()},
+                    'inputs': [{short(k): v for k, v in s.items()} for s in inputs]})
+                try:
+                    text = export_tb(block, tracer, add_reset)
+                except (pyrtl.PyrtlError, pyrtl.PyrtlInternalError) as e:
+                    ctx.count('testbench', 'rejected:' + str(e)[:40])
+                    continue
+                except Exception as e:
+                    report_once(ctx, 'testbench:export-error:%s' % sname,
+                                'output_verilog_testbench raised %s: %s' % (type(e).__name__, e), rep)
+                    continue
+                try:
+                    tb = vr.parse_testbench(text, reset_port=bool(add_reset))
+                    term = tb.coq(idmap)
+                except (vr.ReaderError, KeyError) as e:
+                    report_once(ctx, 'testbench:unreadable', 'testbench text outside the subset / illegal: %s' % e,
+                                dict(rep, text=text[:2000]))
+                    continue
+                traced = [plain({nm: tracer.trace[nm][t] for nm in inputs[0]}) for t in range(len(inputs))]
+                exprs.append('tb_case %s %d %s %s %s %s' % (dump.coq(), dflt, dump.regmap(regmap),
+                                                           dump.memmap(memmap), dump.inputs(traced), term))
+                # what the simulation started from (for the message only; the verdict is Coq's)
+                want_regs = {r.name: regmap.get(r, r.reset_value if r.reset_value is not None else dflt)
+                             for r in d.regs}
+                meta.append(dict(i=i, sim=sname, rep=rep, tb=tb, want_regs=want_regs, d=d, memmap=memmap,
+                                 dflt=dflt, traced=traced, inputs=inputs,
+                                 nontrivial=bool(regmap) or any(memmap.values())))
+                romids = {m.id for m in d.roms}
+                hit = [t for t in tb.init if t[0] in ('fill', 'mem') and t[1] in romids]
+                if hit:
+                    report_once(ctx, 'testbench:rom-overwritten',
+                                'the testbench initial block assigns ROM mem_%d (%s) although the module\'s own initial '
+                                'block holds the ROM data: the two initial blocks race and the ROM may read %d' % (
+                                    hit[0][1], hit[0], hit[0][-1]), dict(rep, text=text[:1500]), limit=1)
+        except Exception as e:   # one case must never abort the run
+            ctx.model_mismatch('harness error (testbench case): %s: %s' % (type(e).__name__, str(e)[:300]), {'case': repr(i)})
     res = safe_eval(ctx, exprs, IMPORTS, 'c05tb', 10 if ctx.tier == 'quick' else 30)
     for c, r in zip(meta, res):
         if r is None:
@@ -1108,7 +1115,10 @@ def run(ctx):
     sizes = (24, 6, 12, 6, 8, 10, 8) if ctx.tier == "quick" else (500, 40, 80, 30, 40, 40, 40)
     tb_jobs = module_cases(ctx, *sizes)
     testbench_cases(ctx, tb_jobs)
-    targeted(ctx)
+    try:
+        targeted(ctx)
+    except Exception as e:
+        ctx.model_mismatch('harness error (targeted name cases): %s: %s' % (type(e).__name__, str(e)[:300]), {})
 
 
 def replay(ctx, data):
